@@ -2,6 +2,8 @@ import NibabelModel.Model.C03
 import NibabelModel.Lemmas.C03
 import NibabelModel.Lemmas.C03_EcatMain
 import NibabelModel.Lemmas.C03_Minc
+import NibabelModel.Lemmas.C03_Parrec
+import NibabelModel.Generated.C03Parrec
 import NibabelModel.Props.C06
 /-! Props/C03 — array proxies: scaling applied pointwise; partial reads equal slicing.
     (statements + short proofs; helper lemmas live in Lemmas/C03*.lean) -/
@@ -304,10 +306,9 @@ theorem parrec_unscaled_eq (k S isz : Nat) (indices : List Nat) (shape : List Na
     simp only [if_true, Except.map, parrecWhole_eq, hshape, List.map_map]
     rfl
   · simp only [h0, if_false]
-    by_cases hseq : isSequential indices = true
-    · simp only [hseq, Bool.not_true, Bool.false_eq_true, if_false]
-      have hi : indices = List.range indices.length := by
-        unfold isSequential at hseq; exact eq_of_beq hseq
+    by_cases hseq : parrecFallback indices = false
+    · simp only [hseq, Bool.false_eq_true, if_false]
+      have hi : indices = List.range indices.length := ((parrecFallback_false_iff indices).mp hseq).2
       have := fileslice_threshold_eq_numpy k idx shape hv .F isz 0 (isz * shape.prod) hisz (by omega)
       rw [this]
       cases hn : npIndex idx shape .F with
@@ -318,7 +319,8 @@ theorem parrec_unscaled_eq (k S isz : Nat) (indices : List Nat) (shape : List Na
           intro q hq
           have hlt := npIndex_lt idx shape r hv hn q hq
           rw [hi, recElem_range S indices.length q (by rw [← hshape]; exact hlt)]
-    · simp only [hseq, Bool.not_false, if_true, bind, Except.bind]
+    · have hseq' : parrecFallback indices = true := by simpa using hseq
+      simp only [hseq', if_true, bind, Except.bind]
       cases hn : npIndex idx shape .F with
       | error e => rfl
       | ok r =>
@@ -330,6 +332,56 @@ theorem parrec_unscaled_eq (k S isz : Nat) (indices : List Nat) (shape : List Na
 
 example : parrecUnscaled (thresholdHeuristic 256) [2, 1, 3] 2 2 [2, 0, 1] [.ellipsis, .int 0] =
     .ok ([2, 1], [4, 5]) := by decide
+
+/-! ### PAR/REC: the fast-path guard, as found in the source -/
+
+/-- SOURCE TIE.  The test of the `elif` in `PARRECArrayProxy._get_unscaled`, translated by `regen()` from
+    the working tree (`Generated/C03Parrec.lean`), IS the guard of the model (`parrecFallback`, used by
+    `parrecUnscaled` and therefore by `parrec_unscaled_eq`) on every non-empty index vector, and the
+    fast path calls `fileslice` with offset 0 in Fortran order, as the model does. -/
+theorem parrec_guard_from_source (indices : List Nat) (hne : indices ≠ []) :
+    Nb.Gen.C03.parrecFallback (indices.map Int.ofNat) = parrecFallback indices ∧
+    Nb.Gen.C03.parrecFastOffset = 0 ∧ Nb.Gen.C03.parrecFastOrder = Order.F := by
+  refine ⟨?_, rfl, rfl⟩
+  cases indices with
+  | nil => exact absurd rfl hne
+  | cons a rest =>
+      have hd := Np.diff_ofNat (a :: rest)
+      have hi := Np.item_zero_ofNat a rest
+      simp only [Nb.Gen.C03.parrecFallback, parrecFallback, hd, hi, Np.any, List.any_map, List.head?_cons]
+      congr 1
+      cases a with
+      | zero => simp
+      | succ n =>
+          have h1 : (((n : Int) + 1) != 0) = true := by simp; omega
+          have h2 : (some (n + 1) != some 0) = true := by simp
+          simp only [Int.natCast_add, Int.cast_ofNat_Int] at *
+          rw [h1, h2]
+
+example : Nb.Gen.C03.parrecFallback ([0, 1, 2, 5].map Int.ofNat) = true ∧
+    Nb.Gen.C03.parrecFallback ([0, 1, 2, 3].map Int.ofNat) = false := by decide
+
+/-- The guard is EXACT: the direct read is chosen precisely for the index vector `[0, 1, …, K-1]`.
+    In particular an ascending vector with a hole (`[0,1,2,5]`: a truncated recording whose lost slice
+    is not at the end of the REC file), a rotated or an interleaved one all fall back. -/
+theorem parrec_guard_exact (indices : List Nat) (hne : indices ≠ []) :
+    parrecFallback indices = false ↔ indices = List.range indices.length := by
+  rw [parrecFallback_false_iff]
+  exact ⟨fun h => h.2, fun h => ⟨hne, h⟩⟩
+
+example : parrecFallback [0, 1, 2, 5] = true ∧ parrecFallback [0, 1, 2, 3] = false ∧
+    parrecFallback [1, 2, 3] = true ∧ parrecFallback [0, 2, 1, 3] = true := by decide
+
+/-- … and that is the ONLY case in which the direct read is right: addressing the REC file as a dense
+    array of the logical shape (logical element `q` ↦ REC element `q`, what `fileslice` does) agrees
+    with the reordered whole array (`recElem S indices q`, theorem `parrec_unscaled_eq`) on every
+    element iff the guard chose the fast path.  So the guard can be neither relaxed nor tightened
+    without either breaking "partial read = slicing" or giving up direct reads that are correct. -/
+theorem parrec_fast_path_taken_iff_correct (S : Nat) (hS : 0 < S) (indices : List Nat) (hne : indices ≠ []) :
+    parrecFallback indices = false ↔ ∀ q, q < S * indices.length → recElem S indices q = q := by
+  rw [parrec_guard_exact indices hne, direct_read_iff S hS indices]
+
+example : recElem 2 [0, 1, 2, 5] 6 = 10 ∧ recElem 2 [0, 1, 2, 5] 5 = 5 := by decide
 
 /-! ### MINC -/
 
